@@ -40,12 +40,7 @@ def kindOf (kind dtype : String) (len : Nat) : Option Kind :=
   | "timestamp" => some .timestamp
   | _ => none
 
-def clsName : FieldClass → String
-  | .IndexedStringField => "IndexedStringField"
-  | .FixedStringField => "FixedStringField"
-  | .NumericField => "NumericField"
-  | .CategoricalField => "CategoricalField"
-  | .TimestampField => "TimestampField"
+def clsName (c : FieldClass) : String := c.name
 
 def intItem (xs : List Int) (i : Nat) : Json :=
   match getE xs i "data[i]" with
